@@ -285,7 +285,7 @@ def case_term(case, obs):
     lnp = coq_list([coq_xq(x) for x in S.lnprior_of_row(np.arange(case["n"]))])
     # did the code's own next-batch estimate vanish after the last recorded iteration? (then an early end is the code's documented behaviour)
     early = False
-    if obs["kind"] == "rows" and obs["draws"] and len(obs["draws"][-1]) == prev:
+    if obs["kind"] == "rows" and obs["draws"] and len(obs["draws"][-1]) == prev and len(prof) >= prev:  # (more draws than the budget allows: left to the model)
         with np.errstate(all="ignore"):
             allv = prof[:prev]
             n_good = int(np.count_nonzero(np.exp(allv - allv.max()) > np.asarray(obs["draws"][-1], float)))
